@@ -31,7 +31,8 @@ type workload struct {
 	acked      int64
 	total      int64
 	hardCap    int64
-	leaderHint int64 // node id believed to be leader (0 unknown)
+	leaderHint int64        // node id believed to be leader (0 unknown)
+	targets    atomic.Value // []uint64: replicas the clients send to (nil: all)
 	wg         sync.WaitGroup
 }
 
@@ -96,6 +97,16 @@ func (w *workload) client(id int, seed int64, timeout time.Duration) {
 		seq++
 		uniq := fmt.Sprintf("c%dv%d", id, seq)
 		node := w.cl.Nodes[rng.Intn(n)].ID
+		if t, _ := w.targets.Load().([]uint64); t != nil {
+			if len(t) == 0 {
+				w.mu.Lock()
+				k.ops--
+				w.mu.Unlock()
+				time.Sleep(20 * time.Millisecond)
+				continue
+			}
+			node = t[rng.Intn(len(t))]
+		}
 		var cmd string
 		var args []string
 		switch k.Family {
@@ -118,7 +129,9 @@ func (w *workload) client(id int, seed int64, timeout time.Duration) {
 				// DEL is a merged multi-key command that is only accepted by a node
 				// leading the partition: send it to the believed leader mostly
 				if h := atomic.LoadInt64(&w.leaderHint); h != 0 && rng.Intn(10) != 0 {
-					node = uint64(h)
+					if t, _ := w.targets.Load().([]uint64); t == nil || containsID(t, uint64(h)) {
+						node = uint64(h)
+					}
 				}
 			}
 		case "list":
@@ -165,4 +178,20 @@ func (w *workload) start(nClients int, seed int64, timeout time.Duration) {
 func (w *workload) stopAndWait() {
 	atomic.StoreInt32(&w.stop, 1)
 	w.wg.Wait()
+}
+
+func (w *workload) setTargets(ids ...uint64) {
+	if ids == nil {
+		ids = []uint64{}
+	}
+	w.targets.Store(ids)
+}
+
+func containsID(l []uint64, id uint64) bool {
+	for _, x := range l {
+		if x == id {
+			return true
+		}
+	}
+	return false
 }
